@@ -29,6 +29,7 @@ import (
 	"example.com/scion-time/net/ntp"
 	"example.com/scion-time/net/nts"
 	"example.com/scion-time/net/ntske"
+	"example.com/scion-time/net/udp"
 
 	"verifharness/lib"
 )
@@ -63,16 +64,19 @@ const numClients = 12 // more sockets than listener goroutines: several 4-tuples
 func startServer() {
 	needClock()
 	// find a free port (StartIPServer terminates the process when it cannot bind)
-	probe, err := net.ListenUDP("udp4", &net.UDPAddr{IP: net.IPv4(127, 0, 0, 1), Port: 0})
+	// The probe socket has SO_REUSEPORT like the listener's sockets and stays bound until they
+	// are all open, so that nobody else can take the port in between.
+	lc := net.ListenConfig{Control: udp.SetsockoptReuseAddrPort}
+	probe, err := lc.ListenPacket(context.Background(), "udp4", "127.0.0.1:0")
 	if err != nil {
 		srvErr = fmt.Errorf("loopback UDP not available: %w", err)
 		return
 	}
 	port := probe.LocalAddr().(*net.UDPAddr).Port
-	probe.Close()
 	log := slog.New(slog.NewTextHandler(io.Discard, nil))
 	server.StartIPServer(context.Background(), log,
 		&net.UDPAddr{IP: net.IPv4(127, 0, 0, 1), Port: port}, 0, ntske.NewProvider())
+	probe.Close()
 	srvAddr = netip.AddrPortFrom(netip.AddrFrom4([4]byte{127, 0, 0, 1}), uint16(port))
 	for i := 0; i < numClients; i++ {
 		c, err := net.ListenUDP("udp4", &net.UDPAddr{IP: net.IPv4(127, 0, 0, 1), Port: 0})
